@@ -89,15 +89,79 @@ theorem start_state_independent {s1 s2 : Slots} (h : skeletonOf s1 = skeletonOf 
     loopStart s1 rs = loopStart s2 rs :=
   loopStart_skeleton h rs
 
-/-- What the three draws select: `a = U(n)` picks the `a`-th occupied slot (increasing p),
-`b = U(k_op)` the relative variable, the fair bit the side (`true` → inputs). -/
+/-- What the two draws select: `a = U(Σ_ops k_op)` walks the variable slots of the ops in chain
+order (`pickLeg`), the fair bit picks the side (`true` → inputs). -/
 theorem start_draw_map (slots : Slots) (rs : RS) (p : Nat) (leg : Leg) (rs' : RS)
     (h : loopStart slots rs = (some (p, leg), rs')) :
+    pickLeg slots 0 (rs.genRange (totalVars slots)).1 = some (p, leg.rel) ∧
+    leg.out = !((rs.genRange (totalVars slots)).2.genStdBool).1 := by
+  unfold loopStart at h
+  simp only at h
+  split at h
+  · cases h
+  · rename_i p' b hp
+    split at h
+    · cases h
+    · injection h with h1 _
+      injection h1 with h1
+      injection h1 with h1 h2
+      subst h1
+      rw [← h2]
+      exact ⟨hp, rfl⟩
+
+/-- **The slot map is a chain-order bijection.** Draw `a` selects relative variable `r` of the op
+at position `p` iff `a` = (number of variable slots of all ops before `p`) + `r`; every `a` below
+the total selects an existing (op, relative variable), every existing one is selected by exactly
+that one `a`, which is below the total. -/
+theorem start_slot_bijection (slots : Slots) :
+    (∀ a p r, pickLeg slots 0 a = some (p, r) ↔
+      ∃ op, slots[p]? = some (some op) ∧ r < op.vars.length ∧ a = totalVars (slots.take p) + r) ∧
+    (∀ a, a < totalVars slots → ∃ q, pickLeg slots 0 a = some q) ∧
+    (∀ p r op, slots[p]? = some (some op) → r < op.vars.length →
+      totalVars (slots.take p) + r < totalVars slots) := by
+  refine ⟨fun a p r => ?_, fun a h => pickLeg_total slots 0 a h,
+    fun p r op h hr => slotIndex_lt slots p r op h hr⟩
+  rw [pickLeg_iff]
+  constructor
+  · rintro ⟨j, op, hp, hj, hr, ha⟩
+    have : j = p := by omega
+    subst this
+    exact ⟨op, hj, hr, ha⟩
+  · rintro ⟨op, hj, hr, ha⟩
+    exact ⟨p, op, by omega, hj, hr, ha⟩
+
+/-- probability that the loop starts on one given existing leg: `1/Σk · 1/2` -/
+def startLegProb (slots : Slots) : Rat := 1 / (2 * (totalVars slots : Rat))
+
+/-- **Every leg is equally likely**: with `U(Σk)` and the fair bit uniform, each existing leg
+`(p, r, side)` is the image of exactly one `(a, bit)` pair out of `Σk · 2`, so its probability is
+`1/Σk · 1/2 = 1/(2Σk)` — independent of the spin values (`start_state_independent`) AND of the
+arity of the op the leg sits on. -/
+theorem start_uniform (slots : Slots) (p r : Nat) (op : Op) (h : slots[p]? = some (some op))
+    (hr : r < op.vars.length) :
+    (∃ a, a < totalVars slots ∧ pickLeg slots 0 a = some (p, r) ∧
+      ∀ a', pickLeg slots 0 a' = some (p, r) → a' = a) ∧
+    ((1 : Rat) / totalVars slots) * (1 / 2) = startLegProb slots := by
+  obtain ⟨h1, _, h3⟩ := start_slot_bijection slots
+  refine ⟨⟨totalVars (slots.take p) + r, h3 p r op h hr, (h1 _ p r).mpr ⟨op, h, hr, rfl⟩, ?_⟩, ?_⟩
+  · intro a' ha'
+    obtain ⟨_, _, _, e⟩ := (h1 a' p r).mp ha'
+    exact e
+  · unfold startLegProb
+    rw [one_div, one_div, one_div, mul_inv]
+    ring
+
+/-! #### the rule before the fix of F22 -/
+
+/-- what the three draws of the OLD rule selected (`loopStartOld`): the `a`-th occupied slot,
+then a relative variable of that op, then the side -/
+theorem old_start_draw_map (slots : Slots) (rs : RS) (p : Nat) (leg : Leg) (rs' : RS)
+    (h : loopStartOld slots rs = (some (p, leg), rs')) :
     nthOp slots (rs.genRange (countOps slots)).1 = some p ∧
     ∃ op, slots[p]? = some (some op) ∧
       leg.rel = ((rs.genRange (countOps slots)).2.genRange op.vars.length).1 ∧
       leg.out = !(((rs.genRange (countOps slots)).2.genRange op.vars.length).2.genStdBool).1 := by
-  unfold loopStart at h
+  unfold loopStartOld at h
   simp only at h
   split at h
   · cases h
@@ -113,17 +177,32 @@ theorem start_draw_map (slots : Slots) (rs : RS) (p : Nat) (leg : Leg) (rs' : RS
         refine ⟨hp, op, hop, ?_, ?_⟩ <;> rw [← h2]
     · cases h
 
-/-- `a ↦ a-th occupied slot` is a bijection from `{0..n-1}` onto the occupied positions, so
-with `U(n)`, `U(k)` and the fair bit uniform every (op, leg) pair has probability
-`1/n · 1/k · 1/2 = 1/(n·2k)`. -/
-theorem start_uniform (s : Slots) (p : Nat) (o : Op) (h : s[p]? = some (some o)) :
-    (∃ a, a < countOps s ∧ nthOp s a = some p ∧
-      ∀ a', a' < countOps s → nthOp s a' = some p → a' = a) ∧
-    ((1 : Rat) / countOps s) * (1 / o.vars.length) * (1 / 2)
-      = 1 / ((countOps s : Rat) * (2 * o.vars.length)) := by
-  refine ⟨nthOp_bijective s p o h, ?_⟩
-  rw [one_div, one_div, one_div, one_div, mul_inv, mul_inv]
-  ring
+/-- probability of one given leg of the op at `p` under the OLD rule: `a ↦ a`-th occupied slot
+is a bijection (`nthOp_bijective`), so `1/n · 1/k_op · 1/2` -/
+def oldStartLegProb (slots : Slots) (p : Nat) : Rat :=
+  match slots[p]? with
+  | some (some op) => (1 / (countOps slots : Rat)) * (1 / (op.vars.length : Rat)) * (1 / 2)
+  | _ => 0
+
+theorem old_start_op_uniform (s : Slots) (p : Nat) (o : Op) (h : s[p]? = some (some o)) :
+    ∃ a, a < countOps s ∧ nthOp s a = some p ∧
+      ∀ a', a' < countOps s → nthOp s a' = some p → a' = a :=
+  nthOp_bijective s p o h
+
+/-- **F22, the mechanism.** Under the old rule the start leg was NOT uniform over legs: in a
+string with a one-variable and a two-variable op a leg of the former was chosen with probability
+1/4, a leg of the latter with 1/8 (the new rule gives 1/6 to each of the six legs). A closed
+loop that starts on one op and arrives through the link from the other has its reverse start on
+the other op, so forward and reverse proposal differed by the factor `k_partner / k_start`. -/
+theorem old_start_rule_not_leg_uniform :
+    ∃ slots : Slots, (∃ o1 o2, slots = [some o1, some o2] ∧ o1.vars.length = 1 ∧ o2.vars.length = 2) ∧
+      oldStartLegProb slots 0 = 1 / 4 ∧ oldStartLegProb slots 1 = 1 / 8 ∧
+      startLegProb slots = 1 / 6 := by
+  refine ⟨[some (Op.diagonal [0] 0 [false] false), some (Op.diagonal [0, 1] 1 [false, false] false)],
+    ⟨_, _, rfl, rfl, rfl⟩, ?_, ?_, ?_⟩
+  · simp [oldStartLegProb, countOps, Op.diagonal]; norm_num
+  · simp [oldStartLegProb, countOps, Op.diagonal]; norm_num
+  · simp [startLegProb, totalVars, Op.diagonal]; norm_num
 
 /-- No operators, no draw, no change (`if self.get_n() > 0`). -/
 theorem loop_empty (w : Nat → List Bool → List Bool → Rat) (cfg : Config) (rs : RS)
@@ -517,11 +596,11 @@ example : ∃ q, Reach q ∧ shouldDoClusterUpdate q = true := by
 example : pickIdx (0 : Rat) [0, 0] = none := by norm_num [pickIdx]
 
 /-- `loopUpdate_pres` is not vacuous: two constant single-site ops on one world line, all
-matrix elements 1, script `[0,0,0,0,0]` (start at op 0, relative variable 0, output side; both
+matrix elements 1, script `[0,0,0,0]` (start slot 0 = op 0, relative variable 0; output side; both
 exit draws 0 = leave through the input leg). The walk enters op 0 from above, leaves through its
 input leg, crosses the time boundary p = 0 (`state[0]` is rewritten), enters op 1 from above,
 leaves through its input leg and arrives at the start leg: closed after two visits, the whole
-world line flipped, all five words consumed. -/
+world line flipped, all four words consumed. -/
 def wlOp (b : Bool) : Op := Op.diagonal [0] 0 [b] true
 def wlCfg : Config := ⟨[false], [some (wlOp false), some (wlOp false)]⟩
 def wlW : Nat → List Bool → List Bool → Rat := fun _ _ _ => 1
@@ -541,18 +620,18 @@ example : (∀ b i o, 0 ≤ wlW b i o) ∧ (∀ o, some o ∈ wlCfg.slots → o.
   simp [wlCfg] at ho; subst ho
   simp [wlOp, Op.diagonal]
 
-example : (loopUpdate wlW wlCfg (RS.ofScript [0, 0, 0, 0, 0])).1
+example : (loopUpdate wlW wlCfg (RS.ofScript [0, 0, 0, 0])).1
       = ⟨[true], [some (wlOp true), some (wlOp true)]⟩ ∧
-    LoopClosed (loopUpdate wlW wlCfg (RS.ofScript [0, 0, 0, 0, 0])).2 ∧
-    (loopUpdate wlW wlCfg (RS.ofScript [0, 0, 0, 0, 0])).2.draws = 5 ∧
-    Consistent (loopUpdate wlW wlCfg (RS.ofScript [0, 0, 0, 0, 0])).1 := by
+    LoopClosed (loopUpdate wlW wlCfg (RS.ofScript [0, 0, 0, 0])).2 ∧
+    (loopUpdate wlW wlCfg (RS.ofScript [0, 0, 0, 0])).2.draws = 4 ∧
+    Consistent (loopUpdate wlW wlCfg (RS.ofScript [0, 0, 0, 0])).1 := by
   decide +kernel
 
 /-- a walk that has not closed when the script ends is flagged, and in general not periodic:
 after the first visit of the run above (script one word shorter than needed for the second
 visit) the state was rewritten at the boundary but op 1 not yet -/
-example : ¬ LoopClosed (loopUpdate wlW wlCfg (RS.ofScript [0, 0, 0, 0])).2 ∧
-    ¬ Consistent (loopUpdate wlW wlCfg (RS.ofScript [0, 0, 0, 0])).1 := by
+example : ¬ LoopClosed (loopUpdate wlW wlCfg (RS.ofScript [0, 0, 0])).2 ∧
+    ¬ Consistent (loopUpdate wlW wlCfg (RS.ofScript [0, 0, 0])).1 := by
   decide +kernel
 
 /-- F20 witness: the one-spin sampler `make_interaction([1,1,1,1],[0])` +
